@@ -275,6 +275,60 @@ theorem C19_eos_sound (c : Cfg) (hv : c.Valid) (sc : Scanner σ) (s : Stream) (h
       have h2 : cu' = { idx := cu.idx, delivered := true } := (Prod.mk.inj hex).2.symm
       exact ⟨h1, hs'.past_iff.mpr (by rw [h2])⟩
 
+/-! ### reads that fail -/
+
+/-- **C19_read_error_consumes_what_it_read**: a `read_term` that ends in a syntax error is a cursor
+    operation like any other.  On every reachable text stream that is not past its end, if the reader
+    fails — on a rune, which is then its look-ahead, or at the end of the input — then
+    (1) the cursor stands exactly behind the bytes of the runes the reader consumed (`Spec.scan`: the runes
+        it was fed minus the look-ahead it stopped on): nothing more is swallowed, nothing is given back twice;
+    (2) `position` has advanced by the same number;
+    (3) the stream is not `past`: an end of file the reader ran into was only looked at, not delivered;
+    (4) the operation that follows starts there: `get_char` delivers what the specification delivers from
+        that cursor (the look-ahead rune itself if the reader stopped on one, end_of_file if it ran into the
+        end), and `peek_char` likewise. -/
+theorem C19_read_error_consumes_what_it_read (c : Cfg) (hv : c.Valid) (sc : Scanner σ) (s : Stream)
+    (hr : Reachable c sc s) (ht : c.typ = .text) (hnp : s.endOfStream ≠ .past)
+    (herr : (stepOp c sc .readTerm s).1 = .err .syntax) :
+    (stepOp c sc .readTerm s).2.buf.cur =
+      s.buf.cur + (Spec.scan sc (c.src.length + 2) sc.init (c.src.drop s.buf.cur) 0).2 ∧
+    (stepOp c sc .readTerm s).2.position =
+      s.position + ((Spec.scan sc (c.src.length + 2) sc.init (c.src.drop s.buf.cur) 0).2 : Int) ∧
+    (stepOp c sc .readTerm s).2.endOfStream ≠ .past ∧
+    (stepOp c sc .getChar (stepOp c sc .readTerm s).2).1 =
+      (Spec.readChar c.spec true
+        { idx := s.buf.cur + (Spec.scan sc (c.src.length + 2) sc.init (c.src.drop s.buf.cur) 0).2,
+          delivered := false }).1 ∧
+    (stepOp c sc .peekChar (stepOp c sc .readTerm s).2).1 =
+      (Spec.readChar c.spec false
+        { idx := s.buf.cur + (Spec.scan sc (c.src.length + 2) sc.init (c.src.drop s.buf.cur) 0).2,
+          delivered := false }).1 := by
+  obtain ⟨cu, hs⟩ := C19_reachable_sim hv hr
+  have hd : cu.delivered = false := by
+    cases hd : cu.delivered with
+    | false => rfl
+    | true => exact absurd (hs.past_iff.mpr hd) hnp
+  obtain ⟨cu', hck, hs', _⟩ := stepOp_sim hv sc hs .readTerm
+  have hex := check_exact_readTerm _ _ _ _ _ hck
+  rw [herr] at hex
+  have hcu' := spec_readTerm_syntax c.spec sc cu cu' ht hd hex
+  have hcur : cu.idx = s.buf.cur := hs.cur_eq.symm
+  simp only [Cfg.spec] at hcu'
+  rw [hcur] at hcu'
+  have hd' : cu'.delivered = false := by rw [hcu']; exact hd
+  obtain ⟨cg, hckg, _, _⟩ := stepOp_sim hv sc hs' .getChar
+  obtain ⟨cp, hckp, _, _⟩ := stepOp_sim hv sc hs' .peekChar
+  have hg := check_exact_getChar _ _ _ _ _ hckg
+  have hp := check_exact_peekChar _ _ _ _ _ hckp
+  have hcu'' : cu' = { idx := s.buf.cur + (Spec.scan sc (c.src.length + 2) sc.init (c.src.drop s.buf.cur) 0).2,
+                       delivered := false } := by rw [hcu', hd]
+  refine ⟨?_, ?_, ?_, ?_, ?_⟩
+  · rw [hs'.cur_eq, hcu']
+  · rw [hs'.pos_eq, hcu', hs.pos_eq, hcur]; simp
+  · intro hpast; have := hs'.past_iff.mp hpast; rw [hd'] at this; exact absurd this (by decide)
+  · rw [← hcu'', hg]
+  · rw [← hcu'', hp]
+
 /-! ### UTF-8 -/
 
 /-- **C19_utf8**: on a reachable text stream that is not past its end,
@@ -411,6 +465,25 @@ example : GoodRunes [0xE9, 0x31] ∧ exCfg.src = encAll [0xE9, 0x31] ∧ exCfg.t
   intro r hr
   simp at hr
   rcases hr with rfl | rfl <;> decide
+
+/-- the source `foo(.%zap.` NL `bar.` NL behind a strings.Reader -/
+def exBad : Cfg :=
+  { src := [102, 111, 111, 40, 46, 37, 122, 97, 112, 46, 10, 98, 97, 114, 46, 10],
+    rd := { chunk := fun _ => 4096, eofWithData := false, fileSize := none }, typ := .text, action := .error }
+
+/-- the real reader, measured: fed `foo(.%` it raises a syntax error, `%` being its look-ahead -/
+def exBadReader : Scanner Clause.Measured.St :=
+  Clause.Measured.scanner [([102, 111, 111, 40, 46, 37], .synRune)] false
+
+/-- the failed read consumes `foo(.` (5 bytes), the `%` it looked at is still there, and the next read
+    delivers `bar`, not the commented-out `zap` -/
+example : (runProg exBad exBadReader [[.readTerm], [.propPos, .peekChar], [.readTerm]] Stream.init).1 =
+    [[.err .syntax], [.pos 5, .char 37], [.term (.atom "bar")]] := by decide +kernel
+
+/-- the hypotheses of C19_read_error_consumes_what_it_read are met by that read -/
+example : (stepOp exBad exBadReader .readTerm Stream.init).1 = .err .syntax ∧
+    (Spec.scan exBadReader (exBad.src.length + 2) exBadReader.init (exBad.src.drop 0) 0).2 = 5 := by
+  decide +kernel
 
 example : Reachable exCfg Clause.scanner (runProg exCfg Clause.scanner [[.peekChar]] Stream.init).2 := ⟨_, rfl⟩
 
